@@ -111,3 +111,42 @@ Proof.
   destruct (check_access cut limit allow c m) as [c1 b]. cbn [fst] in H1.
   specialize (IH c1 H1). destruct (check_all cut limit allow c1 r) as [c2 bs]. exact IH.
 Qed.
+
+(* an attribute reaches the template only through a module that the allow-list admits under its FULL
+   dotted name and that really is a module of that name *)
+Theorem getitem_confined allow is_module has_attr key :
+  getitem 1 allow is_module has_attr key = GValue ->
+  exists m a, rsplit_dot key = Some (m, a) /\ allowed 1 allow m = true /\ is_module m = true /\ has_attr m a = true.
+Proof.
+  unfold getitem. destruct (rsplit_dot key) as [[m a]|]; [|discriminate].
+  destruct (allowed 1 allow m) eqn:E1; [|discriminate]. cbn [negb].
+  assert (H : (if negb (is_module m) then GNoModule else if has_attr m a then GValue else GNoAttr) = GValue ->
+              is_module m = true /\ has_attr m a = true).
+  { destruct (is_module m); [|discriminate]. destruct (has_attr m a); [auto|discriminate]. }
+  destruct m as [|c m']; [discriminate|]. destruct (N.eqb_spec c 46) as [->|Hc].
+  - discriminate.
+  - intros Hv. assert (Hv' : (if negb (is_module (c :: m')) then GNoModule else if has_attr (c :: m') a then GValue else GNoAttr) = GValue).
+    { revert Hv. clear -Hc. destruct c as [|p]; [auto|]. repeat (destruct p as [p|p|]; try exact (fun h => h)); congruence. }
+    destruct (H Hv') as [H1 H2]. exists (c :: m'), a. repeat split; auto.
+Qed.
+
+Lemma cut_at_dot_spec l a b : cut_at_dot l = Some (a, b) -> l = a ++ 46 :: b /\ forallb (fun c => negb (c =? 46)) a = true.
+Proof.
+  revert a. induction l as [|c r IH]; intros a; cbn [cut_at_dot]; [discriminate|].
+  destruct (N.eqb_spec c 46) as [->|Hc].
+  - intros [= <- <-]. auto.
+  - destruct (cut_at_dot r) as [[a' b']|]; [|discriminate]. intros [= <- <-].
+    destruct (IH a' eq_refl) as [-> Ha]. split; [reflexivity|]. cbn [forallb]. rewrite Ha, andb_true_r.
+    destruct (N.eqb_spec c 46); [contradiction|reflexivity].
+Qed.
+
+(* the split is at the last dot: key = module "." attribute with a dot-free attribute *)
+Theorem rsplit_dot_spec key m a : rsplit_dot key = Some (m, a) ->
+  key = m ++ 46 :: a /\ forallb (fun c => negb (c =? 46)) a = true.
+Proof.
+  unfold rsplit_dot. destruct (cut_at_dot (rev key)) as [[ra rm]|] eqn:E; [|discriminate].
+  intros [= <- <-]. destruct (cut_at_dot_spec _ _ _ E) as [Hk Ha]. split.
+  - apply (f_equal (@rev N)) in Hk. rewrite rev_involutive, rev_app_distr in Hk. cbn [rev] in Hk.
+    rewrite <- app_assoc in Hk. exact Hk.
+  - rewrite forallb_forall in *. intros x Hx. apply Ha. now apply in_rev.
+Qed.
